@@ -302,6 +302,14 @@ def _choose_gene(
         genes_at_a_time=1):
 
     for ii in range(genes_at_a_time):
+        if chosen_idx is None:
+            # fewer useful genes left than genes_at_a_time: the tail of
+            # sorted_utility_idx holds genes that mark nothing any more
+            # (or were already chosen; their utility is -1)
+            if len(sorted_utility_idx) == 0:
+                break
+            if utility_array[sorted_utility_idx[-1]] <= 0:
+                break
         (marker_gene_idx_set,
          marker_gene_name_list,
          utility_array,
